@@ -77,6 +77,10 @@ pub enum UOp {
     /// the simulator opens the migration window directly (what `upgrade`
     /// does), so that the tree's own native `migrate` is reachable
     OpenWindow { target: u8 },
+    /// harness action: bind the tree's native code to a target again after a real upgrade moved it to a
+    /// pre-built wasm — the state the tree's own `upgrade` left behind (open window included) is then met
+    /// by the tree's own `migrate`, as when a deployment upgrades to the build of this very tree
+    Rebind { target: u8 },
     TransferOwnership { target: u8, to: u8, auth: AuthVar },
     ViaUpgrader { target: u8, version: VerSel, wasm: WasmSel, cover: Cover, data: MigData, abort: Option<u16> },
     /// the Upgrader drives the harness target whose version is state (see harness::labelled_target):
@@ -92,6 +96,7 @@ impl UOp {
             UOp::Upgrade { .. } => "upgrade",
             UOp::Migrate { .. } => "migrate",
             UOp::OpenWindow { .. } => "open_window",
+            UOp::Rebind { .. } => "rebind",
             UOp::TransferOwnership { .. } => "transfer_ownership",
             UOp::ViaUpgrader { .. } => "via_upgrader",
             UOp::UpgraderLabelled { .. } => "upgrader_labelled",
@@ -321,6 +326,30 @@ impl UExec {
                 env.as_contract(&taddr, || env.storage().instance().set(&mirror_keys::DataKey::Interfaces_Migrating, &()));
                 self.m[t].window = true;
                 ctx.count("op.window_opened_by_simulator");
+            }
+            UOp::Rebind { target } => {
+                let t = *target as usize % NT;
+                if self.m[t].code == Code::Native || !matches!(t, 1 | 2 | 5) {
+                    return;
+                }
+                let taddr = self.targets[t].clone();
+                let owner = self.p[self.m[t].owner].clone();
+                self.sim.setup_all_auths();
+                match t {
+                    1 => {
+                        env.register_at(&taddr, AxelarGasService, (&owner, &self.p[2]));
+                    }
+                    2 => {
+                        env.register_at(&taddr, AxelarOperators, (&owner,));
+                    }
+                    _ => {
+                        env.register_at(&taddr, DerivedDummy, (&owner,));
+                    }
+                }
+                self.sim.set_auth(&[]);
+                let _ = self.sim.drain_events();
+                self.m[t].code = Code::Native;
+                ctx.count("op.native_code_rebound_after_upgrade");
             }
             UOp::TransferOwnership { target, to, auth } => {
                 let t = *target as usize % NT;
@@ -604,7 +633,11 @@ impl World for WorldU {
                 }
             };
             let opened = matches!(op, UOp::OpenWindow { .. } | UOp::Upgrade { auth: AuthVar::Right, .. });
+            let rebind = matches!(op, UOp::Upgrade { auth: AuthVar::Right, .. }) && rng.chance(1, 3);
             ops.push(op);
+            if rebind {
+                ops.push(UOp::Rebind { target });
+            }
             if rng.chance(1, 10) {
                 ops.push(UOp::Advance { dseq: *rng.pick(&[1u32, 17, 100, 20_000, 1_100_000]) });
             }
